@@ -314,7 +314,7 @@ func ipGenerator(ctx context.Context, inet *net.IPNet, ipCh chan<- uint32) {
 		select {
 		case <-ctx.Done():
 			// bail if we have been cancelled
-		case ipCh <- binary.BigEndian.Uint32(inet.IP):
+		case ipCh <- binary.BigEndian.Uint32(addr):
 		}
 		return
 	}
